@@ -214,6 +214,17 @@ Theorem C02_field_type_names : forall bd pkg D,
 Proof. exact (compile_tnames to_snake to_camel to_screaming_snake to_camel_nodot to_snake_nodot). Qed.
 Print Assumptions C02_field_type_names.
 
+(* the same for the request / response / topic messages: the .service and .topic files *)
+Theorem C02_field_type_names_subpackages : forall bd pkg D,
+  valid bd = true -> (forall x, In x bd -> bfile_pkg x <> []) -> compile bd pkg = Ok D ->
+  forall f im, In (BJ f) bd -> j5s_pkg f = pkg -> import_map (jf_imports f) [] = Ok im ->
+  (file_services f <> [] ->
+     exists df, In df D /\ service_types_ok to_snake to_camel (mkEnv (j5s_pkg f) im (pkg_exports to_camel bd)) f df) /\
+  (file_topics f <> [] ->
+     exists df, In df D /\ topic_types_ok to_snake to_camel (mkEnv (j5s_pkg f) im (pkg_exports to_camel bd)) f df).
+Proof. exact (compile_sub_tnames to_snake to_camel to_screaming_snake to_camel_nodot to_snake_nodot). Qed.
+Print Assumptions C02_field_type_names_subpackages.
+
 (* what the declared list looks like: object Foo { field x object { field q string }
    object Foo { object X { field other string } } } (the package of a repaired defect) *)
 Example C02_type_names_example :
